@@ -329,6 +329,17 @@ func (x *Exec) Q(n *Node, c util.Uint160, method string, args ...any) Obs {
 	return x.W.Read(n.L, n.H, n.TS, c, method, args...)
 }
 
+// signable reports whether every signer has key material, i.e. can witness a real transaction
+// (a bare contract hash, which the layered executor can put into the signer list, cannot).
+func (w *World) signable(signers []util.Uint160) bool {
+	for _, s := range signers {
+		if _, ok := w.Signers[s]; !ok {
+			return false
+		}
+	}
+	return true
+}
+
 // ---------- block executor ----------
 
 const (
